@@ -10,6 +10,7 @@ import gen
 from common import ToolError, log
 
 CHUNK = 1500  # cases per trace file / TLC process
+CHUNK_BYTES = 60 * 1000 * 1000   # and at most this many bytes
 
 
 class Ctx:
@@ -95,6 +96,7 @@ def base_inputs(ctx, soup_n, trunc_n=0, lf_n=0, mb_n=0, case_n=0, corpus_trunc=0
     # a sample of every special family goes to every check: a change is often visible to a property whose own
     # families do not contain the construct (DESIGN.md section 12, corrections 18, 22)
     cn = COMMON_N[ctx.tier]
+    ctx.add_cases("common:deep_family", gen.deep_family(rng, cn // 10))
     for fam in ("string_family", "num_family", "sep_family", "multiline_family", "err_family"):
         if fam == "num_family":
             ctx.add_cases("common:" + fam, gen.num_family(rng, cn, exhaustive_len=1))
@@ -421,6 +423,8 @@ def run_generic(ctx):
             self_test(ctx, variant, paths)
             if ctx.prop in ("C06", "C09", "C10", "C11"):
                 model_leg(ctx, paths, "M" + ctx.prop[1:])
+            elif ev:
+                binding_leg(ctx, paths)
     return finish(ctx, "model_checking", RULES["generic"],
                   ["position tables (byte offset, line, column per code point) come from the harness and are "
                    "re-derived locally by the TLA+ predicate CertOK before use",
@@ -460,14 +464,16 @@ def write_pairs(ctx, tag, tuples):
     """tuples: iterable of dicts {id, a: rec, b: rec[, ab: rec]} -> chunked trace files."""
     paths = []
     f = None
-    n = 0
+    n = 0          # tuples in the current file
+    size = 0       # bytes in the current file (a TLC process deserializes one file into its 4 GB heap)
     for t in tuples:
-        if f is None or n % CHUNK == 0:
+        if f is None or n >= CHUNK or size > CHUNK_BYTES:
             if f:
                 f.close()
-            path = os.path.join(ctx.dir, "pairs-%s-%d.ndjson" % (tag, n // CHUNK))
+            path = os.path.join(ctx.dir, "pairs-%s-%d.ndjson" % (tag, len(paths)))
             paths.append(path)
             f = open(path, "w", encoding="utf-8")
+            n = size = 0
         try:
             line = json.dumps(t, ensure_ascii=False)
             line.encode("utf-8")
@@ -476,6 +482,7 @@ def write_pairs(ctx, tag, tuples):
         f.write(line)
         f.write("\n")
         n += 1
+        size += len(line)
     if f:
         f.close()
     return paths
@@ -843,7 +850,7 @@ CONSTANTS
 CHECK_DEADLOCK FALSE
 """
 DESIGN_INVS = ("NoFault NoInternalError CkptDiscipline CkptBelowStack TokensOrdered LinesMatch PendNonEmpty DoneShape "
-               "LitPartition DoneBalanced DoneErrPairs BufferOK")
+               "LitPartition DoneBalanced DoneErrPairs DoneTokHasErr DoneWidths BufferOK")
 
 
 def mc_run(workdir, name, fs, stack, window, emit, invs=DESIGN_INVS, progress=True, timeout=1800, workers=16, calls=9,
@@ -1198,6 +1205,20 @@ def model_leg(ctx, paths, mprop):
         log("[%s] model leg %s: %d records, %s" % (ctx.prop, prop, mon["records"],
             "all clauses hold on the model" if not byc else "MODEL-LEVEL failures (drift, not a verdict): %s" % {k: len(v) for k, v in byc.items()}))
     ctx.extra["design_level_on_model"] = out
+
+
+def binding_leg(ctx, paths):
+    """What carries the design-level results over to the code: step-by-step conformance (spec/TraceConf.tla CONF_drift)
+    of the very executions this check judged (debug-assertion build, events recorded).  Drift is recorded and printed,
+    never a verdict."""
+    mon = common.monitor("CONF", paths, ctx.dir, workers_each=2, parallel=8)
+    ctx.states += mon["states"]
+    ctx.transitions += mon["transitions"]
+    drift = sorted({cid for cid, clause, cnt, wit in mon["verdicts"]})
+    ctx.extra["conformance_of_these_executions"] = {
+        "records": mon["records"], "skipped": len(mon["skipped"]), "drifting": len(drift),
+        "first": [ctx.cases[c]["src"][:120] for c in drift[:3] if c in ctx.cases]}
+    log("[%s] conformance of these executions with the model: %d records, %d drifting" % (ctx.prop, mon["records"], len(drift)))
 
 
 def run_conf(ctx):
